@@ -34,7 +34,8 @@ def make_case(rng):
     ctuple = [(c[0], c[1], c[2], c[2] != "Identifier") for c in comps]
     keys = [(i, s) for i in rng.sample([1, 2, 3, 4], 3) for s in rng.sample(["a", "b", "c"], 2)]
     rows = gen.rand_rows(rng, ctuple, keys, n=rng.randint(0, len(keys)), null_p=rng.choice([0.0, 0.2, 0.4]), pools=pools())
-    source = rng.choices(["input", "paren", "join"], [6, 2, 2])[0]
+    # 'union' / 'intersect' of the input with itself denote the input again: the clause chain then runs over a set-operator result
+    source = rng.choices(["input", "paren", "join", "union", "intersect"], [5, 2, 2, 1, 1])[0]
     case = {"comps": comps, "rows": [list(r) for r in rows], "source": source, "clauses": []}
     cur = [list(c) for c in comps]
     if source == "join":
@@ -138,7 +139,7 @@ def make_case(rng):
 def render(case):
     from vf import gen, model
     from vf.props.c01 import _tuplify
-    src = {"input": "DS_1", "paren": "(DS_1)", "join": "inner_join(DS_1, DS_2)"}[case["source"]]
+    src = {"input": "DS_1", "paren": "(DS_1)", "join": "inner_join(DS_1, DS_2)", "union": "union(DS_1, DS_1)", "intersect": "intersect(DS_1, DS_1)"}[case["source"]]
     s = src
     for i, (k, arg) in enumerate(case["clauses"]):
         if k == "filter":
